@@ -10,19 +10,19 @@ open MongoModel.Vocab
 
 /-- every call of a dispatch helper in a module-level function of aggregate.py; the helpers: _accumulate_group (accumulator), _parse_expression (expr), process_pipeline (stage), filter_applies (query) -/
 def callSites : List CallSite := [
-  ⟨"_accumulate_group", "_parse_expression", 1173⟩,
-  ⟨"_handle_graph_lookup_stage", "filter_applies", 1322⟩,
-  ⟨"_handle_graph_lookup_stage", "_parse_expression", 1334⟩,
-  ⟨"_handle_group_stage", "_parse_expression", 1357⟩,
-  ⟨"_handle_group_stage", "_accumulate_group", 1373⟩,
-  ⟨"_handle_bucket_stage", "_parse_expression", 1424⟩,
-  ⟨"_handle_bucket_stage", "_accumulate_group", 1439⟩,
-  ⟨"_handle_replace_root_stage", "_parse_expression", 1599⟩,
-  ⟨"_handle_project_stage", "_parse_expression", 1637⟩,
-  ⟨"_handle_add_fields_stage", "_parse_expression", 1669⟩,
-  ⟨"_handle_facet_stage", "process_pipeline", 1707⟩,
-  ⟨"_handle_match_stage", "filter_applies", 1716⟩,
-  ⟨"_handle_match_stage", "filter_applies", 1719⟩]
+  ⟨"_accumulate_group", "_parse_expression", 1176⟩,
+  ⟨"_handle_graph_lookup_stage", "filter_applies", 1327⟩,
+  ⟨"_handle_graph_lookup_stage", "_parse_expression", 1339⟩,
+  ⟨"_handle_group_stage", "_parse_expression", 1362⟩,
+  ⟨"_handle_group_stage", "_accumulate_group", 1378⟩,
+  ⟨"_handle_bucket_stage", "_parse_expression", 1429⟩,
+  ⟨"_handle_bucket_stage", "_accumulate_group", 1444⟩,
+  ⟨"_handle_replace_root_stage", "_parse_expression", 1622⟩,
+  ⟨"_handle_project_stage", "_parse_expression", 1663⟩,
+  ⟨"_handle_add_fields_stage", "_parse_expression", 1695⟩,
+  ⟨"_handle_facet_stage", "process_pipeline", 1736⟩,
+  ⟨"_handle_match_stage", "filter_applies", 1745⟩,
+  ⟨"_handle_match_stage", "filter_applies", 1748⟩]
 
 /-- ⟨`<stage>/<key path in the probed specification>:<family>`, index of the call site⟩ -/
 def sites : List Site := [
